@@ -33,6 +33,14 @@ answer from a parameter `[EqOracle]`:
   statements fail for it — the recorded finding `builder-number-compare
   [inexact-number-equals]` (0.1 held at two precisions prints as "0.1" twice).
 
+* THE BRIDGE (section "THE BRIDGE" below): on integers and infinities of any precisions
+  `rawNumberEqual` never consults the text and IS exact comparison; there `run`, `newValue`,
+  `refine` give the same outcome under `textOracle`, `partialOracle` and the total exact
+  oracle `D05.idealOracle`, so the `[ExactOracle]` theorems hold FOR THE CODE'S ORACLE
+  (`…_code_integers`); the harness diffs the code against the model under `idealOracle`
+  on exactly those inputs (`rfn.runi`).  For two non-integers of equal precision the partial
+  oracle answers too, but the agreement with the code there is searched (`rfn.runx`), not proved.
+
 Full statements that are false of the code are kept as `def … : Prop` with a
 `…_partial` theorem and `…_counterexample` theorems (witnesses = replays of the
 recorded findings).
@@ -463,7 +471,8 @@ theorem safePrefix_le_lastBoundary (delims nfc : List UInt8) (lastBoundary : Int
 /-- Hence, under the streaming law of normalisation `E.lastBoundary_stable` (a field of
 `Ext`, probed against x/text on every run): the safe prefix of `p` is a byte prefix of
 NFC(p ++ c) for EVERY continuation `c`.  (When NFC(p) has no normalisation boundary at all,
-`lastBoundary = −1`, the law says nothing; that case is covered by search only.) -/
+`lastBoundary = −1`, this law says nothing; see `safePrefix_noBoundary_shape` and
+`safePrefix_continuation_safe_all` below for that case.) -/
 theorem safePrefix_continuation_safe (E : Ext) (delims p c : List UInt8)
     (h : 0 ≤ E.lastBoundary (E.nfc p)) : E.safe delims p <+: E.nfc (p ++ c) :=
   E.safe_continuation delims p c h
@@ -506,6 +515,15 @@ theorem safePrefix_constraint_holds_all (E : D05.ExtNB) (p c : List UInt8) (s : 
     (hs : bytes s = E.toExt.safe delimiters p) : den (.stringPrefix s) (.str (E.nfc (p ++ c))) = true := by
   simp only [den, hs]
   exact List.isPrefixOf_iff_prefix.mpr (safePrefix_continuation_safe_all E p c)
+
+/-- The caller's prefix, end to end (audit item: `⟦StringPrefix⟧` is defined on the string that was RECORDED): after
+an accepted `StringPrefix(p)` — recording `s = SafeKnownPrefix(p)` — every string `NFC(p ++ c)` that extends the
+caller's prefix and was admitted before is still admitted. -/
+theorem stringPrefix_keeps_every_continuation [ExactOracle] (E : D05.ExtNB) (b b' : Builder) (p c : List UInt8)
+    (s : String) (hs : bytes s = E.toExt.safe delimiters p) (hd : b.isDyn = false)
+    (h : step b (.stringPrefix s) = .ok b') (hx : γB b (.str (E.nfc (p ++ c))) = true) :
+    γB b' (.str (E.nfc (p ++ c))) = true := by
+  rw [exact_partial b b' _ hd h _ rfl, hx, safePrefix_constraint_holds_all E p c s hs]; rfl
 
 -- non-vacuity: in the toy instance the prefix [200, 201] has no boundary, and a non-empty safe prefix
 example : D05.ExtNB.toy.lastBoundary (D05.ExtNB.toy.nfc [200, 201]) = -1 ∧
